@@ -51,15 +51,26 @@ Theorem C15_enum_general :
 Proof. intros ord nodes es root. exact (enum_general ord es nodes root). Qed.
 Print Assumptions C15_enum_general.
 
+(* the same for every well-formed input graph (distinct nodes, simple edges between listed nodes) *)
+Theorem C15_enum_general_wf :
+  forall (ord : list nat -> list nat) (g : graph) (root : nat),
+    (forall l, Permutation (ord l) l) -> wf_graph g = true ->
+    (forall c, In c (enum_ord ord g root) -> grown (g_edges g) root c) /\
+    (forall T, grown (g_edges g) root T -> (forall v, memb v T = true -> In v (g_nodes g)) ->
+               cnt T (enum_ord ord g root) = 1).
+Proof. exact enum_general_wf. Qed.
+Print Assumptions C15_enum_general_wf.
+
 (* non-vacuity: the diamond, root 1, reversed iteration order; [1;0;2;3] is grown and is found once *)
 Example C15_enum_general_nonvacuous :
   let es := [(0,1);(0,2);(1,2);(1,3);(2,3)] in
-  (forall l : list nat, Permutation (rev l) l) /\ NoDup (nbrs es 1) /\ memb 1 (nbrs es 1) = false
+  (forall l : list nat, Permutation (rev l) l) /\ wf_graph ([0;1;2;3], es) = true
+  /\ NoDup (nbrs es 1) /\ memb 1 (nbrs es 1) = false
   /\ grown es 1 [1; 0; 2; 3]
   /\ cnt [3; 2; 1; 0] (enum_ord (@rev nat) ([0;1;2;3], es) 1) = 1
   /\ length (enum_ord (@rev nat) ([0;1;2;3], es) 1) = 8.
 Proof.
-  cbv zeta. split; [intros l; apply Permutation_sym, Permutation_rev|].
+  cbv zeta. split; [intros l; apply Permutation_sym, Permutation_rev|]. split; [reflexivity|].
   split; [vm_compute; repeat constructor; cbn; intuition discriminate|].
   split; [reflexivity|]. split; [|split; vm_compute; reflexivity].
   change [1; 0; 2; 3] with (addv 3 (addv 2 (addv 0 [1]))).
